@@ -254,7 +254,7 @@ func (n *Node) runBlockObserving(b *BlockSpec, watch [][]byte) *BlockObs {
 	}
 	for _, t := range b.Txs {
 		var before map[string]AcctObs
-		if t.Evm != nil {
+		if t.Evm != nil && (t.Spec.Type == 6 || t.Spec.Type == 1) {
 			before = map[string]AcctObs{}
 			ac := n.App.VerifAcctCtrler()
 			addrs := append([][]byte(nil), watch...)
